@@ -10,7 +10,8 @@ open Bf3
 /-- `dec k (enc k b) = b` on 16-byte blocks, and both preserve the block size -/
 structure BlockInv (B : BlockCipher) : Prop where
   encLen : ∀ k b, (B.enc k b).length = 16
-  inv : ∀ k b, b.length = 16 → B.dec k (B.enc k b) = b
+  /-- for every key schedule the cipher's own `sched` produces -/
+  inv : ∀ key k b, B.sched key = .ok k → b.length = 16 → B.dec k (B.enc k b) = b
 
 theorem xorBytes_length (a b : Bytes) : (xorBytes a b).length = min a.length b.length := by
   simp [xorBytes]
@@ -73,7 +74,8 @@ theorem chunks_all_len (n : Nat) (bs : Bytes) (hn : 0 < n) (hd : n ∣ bs.length
     ∀ b ∈ chunks n bs, b.length = n :=
   chunksAux_all_len n bs.length bs hn (Nat.le_refl _) hd
 
-theorem cbcDec_cbcEnc (B : BlockCipher) (hB : BlockInv B) (k : B.K) (prev : Bytes) (bl : List Bytes)
+theorem cbcDec_cbcEnc (B : BlockCipher) (hB : BlockInv B) (key : Bytes) (k : B.K) (hk : B.sched key = .ok k)
+    (prev : Bytes) (bl : List Bytes)
     (hprev : prev.length = 16) (hbl : ∀ b ∈ bl, b.length = 16) :
     cbcDecBlocks B k prev (cbcEncBlocks B k prev bl) = bl := by
   induction bl generalizing prev with
@@ -82,7 +84,7 @@ theorem cbcDec_cbcEnc (B : BlockCipher) (hB : BlockInv B) (k : B.K) (prev : Byte
     have hb : b.length = 16 := hbl b (by simp)
     have hx : (xorBytes b prev).length = 16 := by rw [xorBytes_length]; omega
     simp only [cbcEncBlocks, cbcDecBlocks]
-    rw [hB.inv k _ hx, xorBytes_cancel b prev (by omega)]
+    rw [hB.inv key k _ hk hx, xorBytes_cancel b prev (by omega)]
     rw [ih (B.enc k (xorBytes b prev)) (hB.encLen _ _) (fun b' hb' => hbl b' (by simp [hb']))]
 
 theorem cbcEncBlocks_all_len (B : BlockCipher) (hB : BlockInv B) (k : B.K) (prev : Bytes) (bl : List Bytes) :
@@ -166,13 +168,13 @@ theorem adapter_decrypt_encrypt (B : BlockCipher) (hB : BlockInv B) (key : Bytes
   simp only [Except.bind_eq_ok] at h
   obtain ⟨⟨k, ivb⟩, hmode, blocks, hfeed, hc⟩ := h
   simp only [pure, Except.pure, Except.ok.injEq] at hc
-  have hivb : ivb.length = 16 := by
+  have hkiv : B.sched key = .ok k ∧ ivb.length = 16 := by
     cases iv with
     | none =>
       simp only [Adapter.mkMode, pure, Except.pure, bind, Except.bind] at hmode
       cases hs : B.sched key with
       | error e => simp [hs] at hmode
-      | ok k' => simp [hs] at hmode; rw [← hmode.2]; simp [zeros]
+      | ok k' => simp [hs] at hmode; rw [← hmode.2, ← hmode.1]; simp [zeros]
     | some v =>
       simp only [Adapter.mkMode, pure, Except.pure, bind, Except.bind] at hmode
       split at hmode
@@ -180,7 +182,8 @@ theorem adapter_decrypt_encrypt (B : BlockCipher) (hB : BlockInv B) (key : Bytes
       · rename_i hne
         cases hs : B.sched key with
         | error e => simp [hs] at hmode
-        | ok k' => simp [hs] at hmode; rw [← hmode.2]; simpa using hne
+        | ok k' => simp [hs] at hmode; rw [← hmode.2, ← hmode.1]; simpa using hne
+  obtain ⟨hk, hivb⟩ := hkiv
   unfold Adapter.feedAll at hfeed
   split at hfeed
   · cases hfeed
@@ -197,6 +200,6 @@ theorem adapter_decrypt_encrypt (B : BlockCipher) (hB : BlockInv B) (key : Bytes
     have h1 : ¬ (c.length = 0 ∨ c.length % 16 ≠ 0) := by
       rw [hlen]; exact hcond
     simp only [Adapter.decrypt, if_neg h1, hmode, hfeed2, bind, Except.bind, pure, Except.pure]
-    rw [cbcDec_cbcEnc B hB k ivb _ hivb hall, chunks_flatten 16 _ (by omega)]
+    rw [cbcDec_cbcEnc B hB key k hk ivb _ hivb hall, chunks_flatten 16 _ (by omega)]
 
 end Bec2Verif
